@@ -395,14 +395,15 @@ def _write_dict_forms(a: int, d1: int, d2: int, slen: int) -> bool:
     w, st = _writer([])
     samples = [a, a + d1, a + d1 + d2]
     text = 'abcd'[:slen]
-    w.write(samples, {'per': [10, 20, 30], 'all': 7, 'pair': [1, 2], 'txt': text, 'sub': {'x': [4, 5, 6], 't': text}})
+    w.write(samples, {'per': [10, 20, 30], 'all': 7, 'pair': [1, 2], 'txt': text, 'sub': {'x': [4, 5, 6], 't': text, 'deep': {'y': [7, 8, 9], 'z': {'w': 1}}}, 'other': {'deep': {'y': 0}}})
     good = st.open_now == 0
     for i, s in enumerate(samples):
         f = st.files.get(_file_of(s))
         if f is None or K(s) not in f: return False
         g = f[K(s)]
         good = (good and g['per'].val == [10, 20, 30][i] and g['all'].val == 7 and g['pair'].val == [1, 2] and g['txt'].val == text
-                and g['sub/x'].val == [4, 5, 6][i] and g['sub/t'].val == text)
+                and g['sub/x'].val == [4, 5, 6][i] and g['sub/t'].val == text
+                and g['sub/deep/y'].val == [7, 8, 9][i] and g['sub/deep/z/w'].val == 1 and g['other/deep/y'].val == 0)
     return good
 
 
